@@ -16,6 +16,10 @@ def flag_sections(rng, first, quick):
             groups[1 + pos // 7] |= 1 << (6 - pos % 7)
             out.append((enc(groups), True))
         out.append((enc([base7] + [0] * nb), False))       # cleared variant: all unknown bits zero
+    # bit 6 of the first byte together with EMPTY continuation bytes (the unknown bit is in the first byte, the
+    # multi-byte path is taken)
+    for nb in (1, 2, 3, 4, 8):
+        out.append((enc([base7 | 1] + [0] * nb), True))
     # long flag sections: many empty continuation bytes, then nothing / an unknown bit in the last one
     for nb in (5, 7, 8, 9, 10, 64, 1000):
         out.append((enc([base7] + [0] * nb), False))
